@@ -80,6 +80,8 @@ struct Scenario {
   virtual std::string script(World &, Proc &) { return std::string(); }
   virtual bool local_op(World &, Proc &, const Req &) { return false; }   // extra ops that need no scheduling point
   virtual int connect(World &, Proc &, int fd) { (void) fd; return -ECONNREFUSED; }
+  // resolver query: 0 = *answer holds the response packet; otherwise the h_errno value (1 HOST_NOT_FOUND, 2 TRY_AGAIN, 3 NO_RECOVERY, 4 NO_DATA)
+  virtual int dns(World &, Proc &, const std::string &name, int type, std::string *answer) { (void) name; (void) type; (void) answer; return 3; }
   // the running process repeats the same block of calls with the same results and nobody else can run: a busy loop
   virtual void on_livelock(World &, Proc &);
 };
@@ -302,12 +304,14 @@ struct World {
     switch (r.op) {
       case VK_READ: {
         Ofd *o = O(p, r.a[0]); if (!o) return true;
+        if (o->kind == K_SOCK) return !o->pipe || (o->flags & O_NONBLOCK) || k.readable(o);
         if (o->kind != K_PIPE_R) return true;
         if (o->flags & O_NONBLOCK) return true;
         return !o->pipe->buf.empty() || o->pipe->writers <= 0;
       }
       case VK_WRITE: {
         Ofd *o = O(p, r.a[0]); if (!o) return true;
+        if (o->kind == K_SOCK) return !o->pipe2 || (o->flags & O_NONBLOCK) || k.writable(o);
         if (o->kind != K_PIPE_W) return true;
         if (o->flags & O_NONBLOCK) return true;
         Pipe *pp = o->pipe.get();
